@@ -77,8 +77,11 @@ def _mark_copy(m):
         m["ChatData"]["Message"] = "copy"
 
 
+WAIT_NAMES = ("CompletePingCheck", "HealthMessage")     # every waiter waits for both; matching messages alternate
+
+
 def _names(i):
-    names = ("CompletePingCheck",)
+    names = WAIT_NAMES if i % 3 else WAIT_NAMES[::-1]
     return (n for n in names) if i % 2 else names
 
 
@@ -453,12 +456,17 @@ class WaiterImpl:
         elif n == "Message":
             self.pid += 1
             m = self.pe.ping(Direction.IN, self.pid, reliable=act["rel"])
+            if self.pid % 2 == 0:
+                # the other name the waiters wait for: a waiter resolved by one name must be gone for the other too
+                from hippolyzer.lib.base.message.message import Block, Message
+                m = Message("HealthMessage", Block("HealthData", Health=50.0), packet_id=self.pid, flags=m.send_flags,
+                            direction=Direction.IN)
             exc = self.env.deliver(m)
             self.pump()
             wire = acks = 0
             for p in self.env.transport.take():
                 mm = self.env.deser.deserialize(p.data)
-                if mm.name == "CompletePingCheck":
+                if mm.name in WAIT_NAMES:
                     wire += 1
                 elif mm.name == "PacketAck" and p.direction == Direction.OUT:
                     acks += 1
